@@ -48,6 +48,17 @@ struct ReadRes {
     maxreq: usize,
 }
 fn read_on(source: usize, b: &[u8]) -> Result<ReadRes, String> {
+    read_on_filled(source, b, 0xA5)
+}
+/// `fill`: what fresh heap memory holds during the read (a block built only from the inflater's output does not
+/// depend on it)
+fn read_on_filled(source: usize, b: &[u8], fill: u8) -> Result<ReadRes, String> {
+    crate::alloc::set_poison(fill);
+    let r = read_on_inner(source, b);
+    crate::alloc::set_poison(0);
+    r
+}
+fn read_on_inner(source: usize, b: &[u8]) -> Result<ReadRes, String> {
     crate::runner::progress(&b[..b.len().min(64)]);
     guarded(|| {
         crate::alloc::reset();
@@ -315,6 +326,14 @@ pub fn compress_case(case: &Value, _d: Dispatch, r: &mut Report) {
                         let limit = std::cmp::max(65536, 2 * produced);
                         writeln!(trace, "{}", json!({"ev": "read", "kind": "damaged", "dlen": d.len(), "frame": x.len(), "suffix": 0,
                             "ok": res.ok, "consumed": res.consumed, "produced": produced, "maxreq": res.maxreq})).unwrap();
+                        if res.ok {
+                            r.count("read_damaged_twice_with_different_fresh_memory");
+                            let again = read_on_filled(s, x, 0x5A);
+                            if !matches!(&again, Ok(a) if a.ok && a.data == res.data) {
+                                r.finding("uninit", &["C05", "C19"], json!({"content": name, "level": level, "source": SOURCES[s], "input_head": &x[..x.len().min(16)],
+                                    "what": "the block returned for a damaged frame depends on the contents of fresh heap memory", "len": res.data.len()}));
+                            }
+                        }
                         if res.maxreq > limit {
                             r.finding("alloc", &["C16", "C05"], json!({"content": name, "level": level, "source": SOURCES[s], "input_head": &x[..x.len().min(16)],
                                 "largest_request": res.maxreq, "produced": produced}));
